@@ -11,10 +11,105 @@ import (
 	"verif/simrt"
 )
 
-type (
-	Map    = sync.Map
-	Locker = sync.Locker
-)
+type Locker = sync.Locker
+
+// Map is sync.Map per simulation run: entries stored by an earlier run of the
+// process are gone (a package-level cache must not make a run depend on what
+// ran before it), and Range visits keys in insertion order instead of the
+// runtime's random one. Only one task runs at a time, so a plain map suffices.
+type Map struct {
+	owner *simrt.Sim
+	keys  []any
+	vals  map[any]any
+}
+
+func (m *Map) enter() {
+	if s := simrt.S; s != nil && m.owner != s {
+		m.owner, m.keys, m.vals = s, nil, nil
+	}
+	if m.vals == nil {
+		m.vals = map[any]any{}
+	}
+	simrt.Yield(siteSync)
+}
+
+func (m *Map) drop(key any) {
+	delete(m.vals, key)
+	for i, k := range m.keys {
+		if k == key {
+			m.keys = append(m.keys[:i:i], m.keys[i+1:]...)
+			return
+		}
+	}
+}
+
+func (m *Map) Load(key any) (any, bool) { m.enter(); v, ok := m.vals[key]; return v, ok }
+
+func (m *Map) Store(key, value any) { m.Swap(key, value) }
+
+func (m *Map) Swap(key, value any) (previous any, loaded bool) {
+	m.enter()
+	previous, loaded = m.vals[key]
+	if !loaded {
+		m.keys = append(m.keys, key)
+	}
+	m.vals[key] = value
+	return previous, loaded
+}
+
+func (m *Map) LoadOrStore(key, value any) (actual any, loaded bool) {
+	m.enter()
+	if v, ok := m.vals[key]; ok {
+		return v, true
+	}
+	m.keys = append(m.keys, key)
+	m.vals[key] = value
+	return value, false
+}
+
+func (m *Map) LoadAndDelete(key any) (value any, loaded bool) {
+	m.enter()
+	value, loaded = m.vals[key]
+	if loaded {
+		m.drop(key)
+	}
+	return value, loaded
+}
+
+func (m *Map) Delete(key any) { m.LoadAndDelete(key) }
+
+func (m *Map) CompareAndSwap(key, old, new any) bool {
+	m.enter()
+	if v, ok := m.vals[key]; ok && v == old {
+		m.vals[key] = new
+		return true
+	}
+	return false
+}
+
+func (m *Map) CompareAndDelete(key, old any) bool {
+	m.enter()
+	if v, ok := m.vals[key]; ok && v == old {
+		m.drop(key)
+		return true
+	}
+	return false
+}
+
+func (m *Map) Range(f func(key, value any) bool) {
+	m.enter()
+	for _, k := range append([]any(nil), m.keys...) {
+		v, ok := m.vals[k]
+		if !ok {
+			continue
+		}
+		if !f(k, v) {
+			return
+		}
+	}
+}
+
+func (m *Map) Clear() { m.enter(); m.keys, m.vals = nil, map[any]any{} }
 
 const siteSync = 1 // reserved site id for sync operations
 
